@@ -69,10 +69,25 @@ def canon_member(name):
     return SUBOBJ.get(cls, name)
 
 
+CLASSES = {}     # member -> audited category, from the extracted model (filled in run)
+UNKNOWN_MEMBERS = set()
+
+
 def residue_set(r):
+    """per-transformation members that differ from a new transformer (sticky / constant / scratch
+    members are allowed to differ; a member the audit does not know is remembered)"""
     if r in ("-", "?"):
         return set()
-    return {canon_member(x.split("=")[0]) for x in r.split(",")}
+    out = set()
+    for x in r.split(","):
+        m = canon_member(x.split("=")[0])
+        c = CLASSES.get(m)
+        if c is None:
+            UNKNOWN_MEMBERS.add(m)
+            out.add(m)
+        elif c == "per-transformation":
+            out.add(m)
+    return out
 
 
 # ---------------------------------------------------------------------------------------------
@@ -149,6 +164,19 @@ def apply_track(track, op, status):
         track.indent = int(a)
 
 
+FAILING = []     # sheets that really abort on a new transformer (measured at the start of run)
+QUIET = []       # sheets that never abort
+
+
+def probe_sheets(impl):
+    """Which pool sheets abort on a new transformer (some planned abort kinds only warn in this library)."""
+    lines = ["H s%d T%d,0;T%d,1" % (i, i, i) for i in range(len(P.SHEETS))]
+    res, err = run_harness(impl, lines, jobs=4)
+    FAILING[:] = [i for i in range(len(P.SHEETS)) if any(x["status"] != 0 for x in res.get("s%d" % i, []))]
+    QUIET[:] = [i for i in range(len(P.SHEETS)) if i not in FAILING]
+    return err
+
+
 def gen_history(ctx, maxlen, allow_form_switch):
     r = ctx.rng
     ops = []
@@ -158,11 +186,11 @@ def gen_history(ctx, maxlen, allow_form_switch):
 
     def sheet(prefer_ok=False):
         x = r.random()
-        if prefer_ok or x < 0.50:
+        if prefer_ok:
             return r.choice(OK_SHEETS)
-        if x < 0.62:
-            return r.choice(COMPILE_FAIL)
-        return r.choice(RUN_FAIL)
+        if x < 0.56 and FAILING:
+            return r.choice(FAILING)
+        return r.choice(QUIET)
 
     def source():
         return r.choice(BAD_SOURCES) if r.random() < 0.07 else r.choice(OK_SOURCES)
@@ -187,7 +215,7 @@ def gen_history(ctx, maxlen, allow_form_switch):
                 ops.append("u%d,%d" % (r.randrange(ncs), source()))
             else:
                 ops.append("v%d,%d" % (s, r.randrange(nps)))
-            if P.SHEETS[s][0] != "ok" and form in "Tv":
+            if s in FAILING and form in "Tv":
                 last_failed = r.random() < 0.8
         elif x < 0.70:
             name = r.choice(NAMES)
@@ -259,7 +287,13 @@ def evaluate(ctx, histories, impl, model, have_hook, facts, known_cls):
                 fr = fresh_for(tr, op)
                 if fr is not None:
                     fresh_needed.setdefault(";".join(fr), None)
-            items.append((op, r, fr))
+            sh_idx = None
+            if op[0] in "Tv":
+                sh_idx = int(op[1:].split(",")[0])
+            elif op[0] in "tu":
+                i = int(op[1:].split(",")[0])
+                sh_idx = tr.cs[i] if i < len(tr.cs) else None
+            items.append((op, r, fr, sh_idx))
             apply_track(tr, op, r["status"])
         per_hist.append(items)
     keys = sorted(fresh_needed)
@@ -277,13 +311,13 @@ def evaluate(ctx, histories, impl, model, have_hook, facts, known_cls):
         if items is None:
             continue
         ops = histories[k]
-        for pos, (op, r, fr) in enumerate(items):
+        for pos, (op, r, fr, sh_idx) in enumerate(items):
             ctx.cov["evaluations"] += 1
             ctx.count("op:" + op[0])
-            if have_hook and r["residue"] not in ("-", "?"):
+            if have_hook and residue_set(r["residue"]):
                 rs = residue_set(r["residue"])
-                prev = residue_set(items[pos - 1][1]["residue"]) if pos else set()
-                if rs != prev or r["residue"] != items[pos - 1][1]["residue"]:
+                prevtxt = items[pos - 1][1]["residue"] if pos else "-"
+                if r["residue"] != prevtxt:
                     if rs <= OBJSTACK and "objstack_depth_after_abort" in known_cls:
                         known_hits["objstack_depth_after_abort"] = known_hits.get("objstack_depth_after_abort", 0) + 1
                     else:
@@ -297,6 +331,10 @@ def evaluate(ctx, histories, impl, model, have_hook, facts, known_cls):
                 continue
             if op[0] in "tTuv":
                 ctx.count("transform:" + ("ok" if r["status"] == 0 else "fail%d" % r["status"]))
+                if r["status"] != 0:
+                    d = int(op[1:].split(",")[1]) if op[0] in "Tu" else None
+                    ctx.count("abort:" + ("source-parse-error" if d is not None and P.SOURCES[d][0] == "bad"
+                                          else (P.SHEETS[sh_idx][1] if sh_idx is not None and sh_idx in FAILING else "bad-param-or-other")))
             seen.add((";".join(fr), r["status"], r["hash"]))
             diffs = []
             if r["status"] != f["status"]:
@@ -307,7 +345,7 @@ def evaluate(ctx, histories, impl, model, have_hook, facts, known_cls):
             if diffs or msgdiff:
                 stale_only = (not diffs) and r["status"] == 0 and f["msg"] == "0" and r["msg"] != "0"
                 formswitch = form_switch_before(ops[:pos])
-                if stale_only and op[0] in "ct" and "stale_error_after_success" in known_cls:
+                if stale_only and op[0] in "ctv" and "stale_error_after_success" in known_cls:   # entry points that do not start with parseSource
                     known_hits["stale_error_after_success"] = known_hits.get("stale_error_after_success", 0) + 1
                     continue
                 if formswitch and not msgdiff_only_stale(diffs, r, f) and "param_form_switch" in known_cls:
@@ -329,7 +367,7 @@ def evaluate(ctx, histories, impl, model, have_hook, facts, known_cls):
             if items is None:
                 continue
             mops = []
-            for op, r, fr in items:
+            for op, r, fr, _ in items:
                 mops.append(model_op(op, r, nst))
             mlines.append("H h%d %s" % (k, ";".join(mops)))
         mh = {}
@@ -349,7 +387,7 @@ def evaluate(ctx, histories, impl, model, have_hook, facts, known_cls):
             if mo is None or len(mo) != len(items):
                 corr.append({"what": "model gave no result for history %s" % ";".join(histories[k])})
                 continue
-            for pos, ((op, r, fr), m) in enumerate(zip(items, mo)):
+            for pos, ((op, r, fr, _), m) in enumerate(zip(items, mo)):
                 ctx.cov["traces_validated_against_impl"] += 1
                 out, _, mres_ = m.partition("|")
                 where = "history %s op %d (%s)" % (";".join(histories[k][:pos + 1]), pos, op)
@@ -455,6 +493,11 @@ def fresh_from_key(key, op):
     return ";".join(ops + ["%s%s" % ("q" if x == "1" else "p", d), "v%s,0" % s])
 
 
+def model_classes(model):
+    rc, out = core.sh([model], input="CLASSES x\n", timeout=60)
+    return dict(l.split(" ")[1:3] for l in out.split("\n") if l.startswith("CLASS "))
+
+
 def model_facts(model):
     rc, out = core.sh([model], input="FACTS x\n", timeout=60)
     m = re.search(r"FACTS (.*)", out)
@@ -493,7 +536,14 @@ def run(ctx):
             have_hook = False    # binary built before the hook existed / without the flag: do not trust it
     ctx.notes["hook"] = "present: internal sizes compared after every call" if have_hook else \
         "ABSENT in this tree (hooks/C06_hook.diff not applied): the residue leg is skipped; leaks are only seen through outputs"
+    perr = probe_sheets(impl)
+    if perr:
+        ctx.broken.append("sheet probe: " + perr[:300])
+    ctx.notes["aborting_sheets"] = [P.SHEETS[i][1] for i in FAILING]
+    ctx.notes["planned_abort_kinds_that_only_warn_here"] = [P.SHEETS[i][1] for i in QUIET if P.SHEETS[i][0] != "ok"]
     facts = model_facts(model) if model else {}
+    CLASSES.clear()
+    CLASSES.update(model_classes(model) if model else {})
     ctx.notes["generated_switches"] = facts
     known_cls = {k["cls"]: k for k in ctx.known.for_property("C06")}
     # which alternative of each theorem pair is the live one
@@ -504,7 +554,7 @@ def run(ctx):
     # a repaired defect must not stay listed as known, and an unlisted one must be reported
     allow_form_switch = "param_form_switch" not in known_cls
 
-    n_hist, maxlen = (260, 22) if not ctx.thorough else (2500, 30)
+    n_hist, maxlen = (500, 22) if not ctx.thorough else (5000, 30)
     histories = [list(h) for h in CORPUS] + [gen_history(ctx, maxlen, allow_form_switch) for _ in range(n_hist)]
     ctx.cov["samples"] = [";".join(h) for h in histories[:3] + histories[len(CORPUS):len(CORPUS) + 5]]
     viol, corr, hits = evaluate(ctx, histories, impl, model, have_hook, facts, known_cls)
@@ -539,6 +589,8 @@ def run(ctx):
             txt += "\n".join(P.pool_lines()) + "\n" + v["replay"] + "\n"
             ctx.violation("oracle", txt)
     ctx.notes["oracle_failures"] = len(viol)
+    if UNKNOWN_MEMBERS:
+        ctx.broken.append("hook reports members the audited classification does not know: " + ", ".join(sorted(UNKNOWN_MEMBERS)))
     return ctx.finish(LEVEL, explanation="theorems over the transformer state machine tied to the generated reset facts + correspondence of the extracted model with the rebuilt library (status, error-message staleness, residue via the hook, outputs equal the model's fresh prediction) + independent oracle: every call re-run on a new transformer")
 
 
